@@ -75,7 +75,7 @@ def main():
                               if (pid, m) in demos else "run by the authoring sub-agent (fails with the change, passes without); see README.md"},
                 "checks_run": r["detect"],
                 "detected_by": detected,
-                "what_i_ran": "python3 harness/seedtest.py verify /tmp/wt/%s <seed> ; python3 harness/seedtest.py detect <seed> %s  (git -C /repo apply patch.diff; quick checks; git -C /repo checkout -- .)" % (pid, ",".join(r["detect"]))}
+                "what_i_ran": "python3 harness/seedtest.py verify /tmp/wt/%s <seed> ; python3 harness/seedtest.py detect <seed> %s  (git -C /repo apply patch.diff; quick checks; git -C /repo checkout -- .); re-tests after a strengthening: git -C /tmp/wt/%s apply patch.diff; VERIF_REPO=/tmp/wt/%s python3 harness/verif.py check <id> --tier quick; git -C /tmp/wt/%s checkout -- ." % (pid, ",".join(r["detect"]), pid, pid, pid)}
         with open(os.path.join(dst, "meta.json"), "w") as f:
             json.dump(meta, f, indent=1)
         rows.append((pid, m, detected, r["verify"]))
